@@ -18,8 +18,14 @@ pub fn install(hook: Hook) -> bool {
 /// serial number for connections, so that events of two connections that reuse
 /// the same port pair can be told apart
 pub fn next_conn_serial() -> u64 {
-    static NEXT: std::sync::atomic::AtomicU64 = std::sync::atomic::AtomicU64::new(1);
-    NEXT.fetch_add(1, std::sync::atomic::Ordering::Relaxed)
+    NEXT_CONN_SERIAL.fetch_add(1, std::sync::atomic::Ordering::SeqCst)
+}
+
+static NEXT_CONN_SERIAL: std::sync::atomic::AtomicU64 = std::sync::atomic::AtomicU64::new(1);
+
+/// every connection constructed from now on gets a serial >= the returned value
+pub fn conn_serial_watermark() -> u64 {
+    NEXT_CONN_SERIAL.load(std::sync::atomic::Ordering::SeqCst)
 }
 
 #[inline]
